@@ -9,7 +9,9 @@ git -C /repo worktree add -q --detach $T/repo HEAD
 ( cd $T/repo && /venv/bin/python - <<'P'
 import ast, glob
 for f in glob.glob('lentil/*.py'):
-    open(f, 'w').write('# reformatted\n' + ast.unparse(ast.parse(open(f).read())) + '\n')
+    src = open(f).read()                      # read BEFORE opening for writing (opening truncates)
+    assert len(src) > 0
+    open(f, 'w').write('# reformatted\n' + ast.unparse(ast.parse(src)) + '\n')
 P
 )
 cp -a lean $T/lean; mkdir $T/out
